@@ -7,6 +7,7 @@ func init() {
 	vfRegister("VerifC22_toolarge", VerifC22_toolarge)
 	vfRegister("VerifC22_consume", VerifC22_consume)
 	vfRegister("VerifC22_bytes", VerifC22_bytes)
+	vfRegister("VerifC22_bytesBoundary", VerifC22_bytesBoundary)
 }
 
 // Every v < 2^62: shortest encoding, size agreement, prefix preserved, decode returns v with any tail.
@@ -123,5 +124,39 @@ func VerifC22_bytes() {
 	vfAssert(j1 == -1 || (j1 <= m && len(r1) == j1-1 && j1 == 1+int(b[0])), "ConsumeUint8Bytes bounds")
 	r2, j2 := ConsumeVarintBytes(b)
 	vfAssert(j2 == -1 || (j2 <= m && len(r2) <= j2), "ConsumeVarintBytes bounds")
+	vfReach("end")
+}
+
+// Length-prefixed helpers at the size boundaries of the prefix: payloads of 62..64 (1/2-byte varint prefix) and
+// 253..255 bytes (largest uint8 prefix; AppendUint8Bytes panics above 255). Contents concrete except 3 symbolic bytes.
+// Added after seeded change C22-B (uint8 arithmetic wrapping at a 255-byte payload).
+func VerifC22_bytesBoundary() {
+	sizes := []int{62, 63, 64, 253, 254, 255, 256}
+	n := sizes[vfChoice("size", len(sizes))]
+	v := make([]byte, n)
+	for i := range v {
+		v[i] = byte(i)
+	}
+	v[0], v[n/2], v[n-1] = vfU8("first"), vfU8("mid"), vfU8("last")
+	nt := vfLen("taillen", 0, 1)
+	tail := vfBytes("tail", nt)
+	if n <= 255 {
+		e1 := append(AppendUint8Bytes(nil, v), tail...)
+		g1, k1 := ConsumeUint8Bytes(e1)
+		vfAssert(k1 == 1+n, "uint8bytes: consumed = 1 + payload length")
+		vfAssert(len(g1) == n && g1[0] == v[0] && g1[n/2] == v[n/2] && g1[n-1] == v[n-1], "uint8bytes: payload")
+		_, kshort := ConsumeUint8Bytes(e1[:n]) // one byte short
+		vfAssert(kshort == -1, "uint8bytes: truncated input reported")
+	} else {
+		vfAssert(vfExpectPanic(func() { AppendUint8Bytes(nil, v) }), "uint8bytes: payload above 255 bytes panics")
+		vfReach("too-long")
+	}
+	e2 := append(AppendVarintBytes(nil, v), tail...)
+	g2, k2 := ConsumeVarintBytes(e2)
+	vfAssert(k2 == SizeVarint(uint64(n))+n, "varintbytes: consumed = prefix + payload length")
+	vfAssert(len(g2) == n && g2[0] == v[0] && g2[n-1] == v[n-1], "varintbytes: payload")
+	_, k2short := ConsumeVarintBytes(e2[:len(e2)-nt-1])
+	vfAssert(k2short == -1, "varintbytes: truncated input reported")
+	vfObserve("k2", uint64(k2))
 	vfReach("end")
 }
